@@ -529,6 +529,15 @@ func randMatrix(r *rand.Rand, comm [][]int, reps []int) [][]RSig {
 			for j := 0; j < rep; j++ {
 				vec = append(vec, RSig{k, "m1", []string{"ok", "mal"}[j%2]})
 			}
+		case 6: // members of another vector of the same container
+			var other []int
+			for d := 1; d <= rMaxVec && len(other) == 0; d++ {
+				other = comm[(i+d)%(rMaxVec+1)]
+			}
+			p := r.Perm(len(other))
+			for j := 0; j < rep && j < len(p); j++ {
+				vec = append(vec, RSig{other[p[j]], "m1", "ok"})
+			}
 		case 4: // one short
 			p := r.Perm(len(mem))
 			for j := 0; j < rep-1 && j < len(p); j++ {
@@ -593,6 +602,9 @@ func trapDupSigner(n int) *RScenario {
 		rverify("c1", []RSig{ok(1)}, []RSig{ok(10), ok(11), ok(12)}),                 // one short
 		rverify("c1", []RSig{ok(1), ok(2)}),                                          // missing vector
 		rverify("c1", []RSig{ok(1), ok(10)}, []RSig{ok(10), ok(11), ok(12)}),         // member of the other vector
+		rverify("c1", []RSig{ok(1), ok(2)}, []RSig{ok(1), ok(2), ok(3)}),             // vector 1 signed by the members of vector 0
+		rverify("c1", []RSig{ok(10), ok(11)}, []RSig{ok(10), ok(11), ok(12)}),        // vector 0 signed by the members of vector 1
+		rsubmit("c1", []RSig{ok(1), ok(2)}, []RSig{ok(1), ok(2), ok(3)}),
 		rverify("c1", []RSig{ok(1), {2, "m2", "ok"}}, []RSig{ok(10), ok(11), ok(12)}), // wrong message
 		rverify("c1", []RSig{ok(1), {2, "m1", "junk"}}, []RSig{ok(10), ok(11), ok(12)}),
 		rverify("c1", []RSig{ok(1), ok(1)}, []RSig{ok(10), ok(11), ok(12)}),  // duplicate of one member
